@@ -1,0 +1,53 @@
+//go:build verif
+
+// Contracts for the write-scheduler queue layer and the round-robin / random schedulers, checked by /verif/govc.
+package http2
+
+//@ -- every queued request is well formed (what Consume needs to look at it)
+//@ pure func wfReq(wr FrameWriteRequest) bool = isData(wr) ==> dataOf(wr) != nil && wr.stream != nil && wr.stream.sc != nil && wr.stream.flow.conn != wr.stream.flow
+//@ pure func wfQueue(q *writeQueue) bool = forall i int :: 0 <= i && i < len(q.s) ==> wfReq(q.s[i])
+
+//@ func (*writeQueue).empty :: q -> r
+//@   props C20
+//@   requires q != nil
+//@   assigns nothing
+//@   ensures r <==> len(q.s) == 0
+
+//@ func (*writeQueue).push :: q, wr
+//@   props C20
+//@   requires q != nil
+//@   assigns q.s
+//@   ensures [C20:push-appends-in-order] q.s == old(q.s) ++ seq[FrameWriteRequest]{wr}
+
+//@ func (*writeQueue).shift :: q -> wr
+//@   props C20,C10
+//@   requires q != nil
+//@   requires [C20:shift-on-non-empty] len(q.s) > 0
+//@   assigns q.s
+//@   ensures [C20:shift-removes-exactly-the-head] wr == old(q.s)[0] && q.s == old(q.s)[1:]
+
+//@ func (*writeQueue).consume :: q, n -> wr, ok
+//@   props C20,C12
+//@   requires q != nil && wfQueue(q)
+//@   assigns q.s, stream.flow.n
+//@   ensures [C20:empty-queue-yields-nothing] len(old(q.s)) == 0 ==> !ok && q.s == old(q.s)
+//@   ensures [C20:blocked-head-stays] !ok ==> q.s == old(q.s)
+//@   ensures [C20:order-kept] ok ==> len(old(q.s)) > 0 && (q.s == old(q.s)[1:] || (len(q.s) == len(old(q.s)) && q.s[1:] == old(q.s)[1:] && isData(old(q.s)[0]) && isData(q.s[0]) && isData(wr) && dataOf(wr).p ++ dataOf(q.s[0]).p == old(dataOf(q.s[0]).p) && q.s[0].stream == old(q.s)[0].stream))
+//@   ensures [C20:whole-frame-handed-out-unchanged] ok && q.s == old(q.s)[1:] && len(q.s) + 1 == len(old(q.s)) ==> wr == old(q.s)[0]
+//@   ensures [C12:released-data-within-allowance] ok && isData(wr) && len(old(dataOf(old(q.s)[0]).p)) > 0 ==> len(dataOf(wr).p) <= n && len(dataOf(wr).p) <= old(avail(old(q.s)[0].stream.flow)) && len(dataOf(wr).p) <= old(q.s)[0].stream.sc.maxFrameSize
+
+//@ func (*writeQueuePool).put :: p, q
+//@   props C20
+//@   requires p != nil && q != nil
+//@   assigns q.s, deref(p)
+//@   ensures [C20:recycled-queue-is-empty] len(q.s) == 0 && deref(p) == old(deref(p)) ++ seq[*writeQueue]{q}
+//@   loop 1 invariant -1 <= rangeindex && rangeindex < len(q.s) || (rangeindex == -1 && len(q.s) == 0)
+//@   loop 1 invariant len(q.s) == len(old(q.s))
+
+//@ func (*writeQueuePool).get :: p -> q
+//@   props C20
+//@   requires p != nil && (forall i int :: 0 <= i && i < len(deref(p)) ==> deref(p)[i] != nil && len(deref(p)[i].s) == 0)
+//@   assigns deref(p)
+//@   ensures [C20:fresh-or-recycled-empty-queue] q != nil && len(q.s) == 0
+//@   ensures len(old(deref(p))) == 0 ==> fresh(q) && deref(p) == old(deref(p))
+//@   ensures len(old(deref(p))) > 0 ==> q == old(deref(p))[len(old(deref(p)))-1] && deref(p) == old(deref(p))[:len(old(deref(p)))-1]
